@@ -38,16 +38,18 @@ const (
 
 // hk describes one tree kind / key type to the generic history driver.
 type hk[K any] struct {
-	newTree func() Tree[K, uint64]
-	newKey  func(spec int) K
-	concKey func(spec int) K
-	clone   func(K) K
-	eq      func(a, b K) bool // oracle equality (no fork)
-	less    func(a, b K) bool // oracle strict order (no fork)
-	trace   func(tag string, k K)
-	scratch bool // the key codec keeps per-call scratch state (collation): excluded from the reader premise
-	lv      *leafView
-	state   func(t Tree[K, uint64]) vpTreeState
+	newTree     func() Tree[K, uint64]
+	newKey      func(spec int) K
+	concKey     func(spec int) K
+	clone       func(K) K
+	eq          func(a, b K) bool // oracle equality (no fork)
+	less        func(a, b K) bool // oracle strict order (no fork)
+	trace       func(tag string, k K)
+	scratch     bool    // the key codec keeps per-call scratch state (collation): excluded from the reader premise
+	retainSlack uint64  // bytes an emptied tree may hold beyond a new one (codec scratch owned by the key codec)
+	onInsert    func(K) // kind-specific premise on stored keys (collation: the collator tells stored strings apart)
+	lv          *leafView
+	state       func(t Tree[K, uint64]) vpTreeState
 	// byte-string kinds only
 	bytesOf func(K) []byte
 	isAlpha bool
@@ -212,6 +214,9 @@ func runHist[K any](h *hk[K]) {
 				}
 			}
 			inserted = append(inserted, k)
+			if h.onInsert != nil {
+				h.onInsert(k)
+			}
 			vpApi()
 			t.Insert(h.clone(k), v)
 			ref.put(k, v)
@@ -305,7 +310,7 @@ func runHist[K any](h *hk[K]) {
 	if mask&ckRetain != 0 {
 		cyc, spec := vpParam(pi), vpParam(pi+1)
 		pi += 2
-		checkRetain(h, t, ref, cyc, spec, emptyRetained)
+		checkRetain(h, t, ref, cyc, spec, emptyRetained, inserted)
 	}
 }
 
@@ -315,8 +320,19 @@ func runHist[K any](h *hk[K]) {
 // Under the executor vpRetainedTree is the exact byte count of the objects reachable in its heap model and
 // the cycle runs twice; natively it is the live heap after two forced collections and the cycle runs 100000
 // times, so a per-operation leak shows as growth far above the slack.
-func checkRetain[K any](h *hk[K], t Tree[K, uint64], ref *refMap[K], cyc, spec int, rEmpty uint64) {
+func checkRetain[K any](h *hk[K], t Tree[K, uint64], ref *refMap[K], cyc, spec int, rEmpty uint64, inserted []K) {
 	k := mkKey(h, spec)
+	if h.isAlpha {
+		// the cycle inserts k: keep it outside the known class K0 (judged by C01)
+		bad := false
+		for _, o := range inserted {
+			bad = vpOr(bad, termPrefixRel(h.bytesOf(o), h.bytesOf(k)))
+		}
+		vpAssume(!bad)
+	}
+	if h.onInsert != nil && (cyc == 2 || cyc == 1 || cyc == 3) {
+		h.onInsert(k)
+	}
 	_, present := ref.get(k)
 	switch cyc {
 	case 1, 3:
@@ -383,7 +399,9 @@ func checkRetain[K any](h *hk[K], t Tree[K, uint64], ref *refMap[K], cyc, spec i
 		}
 		t.Delete(h.clone(k))
 		r3 := vpRetainedTree(t)
-		vpAssert(vpNoGrowth(rEmpty, r3, 256), "C17 an emptied tree retains more than a new tree plus a small constant")
+		// a tree emptied by deletion holds what a new tree holds (codec scratch of collation trees: the last key)
+		slack := h.retainSlack
+		vpAssert(vpNoGrowth(rEmpty, r3, slack), "C17 an emptied tree retains more than a new tree plus a small constant")
 	}
 }
 
